@@ -48,7 +48,7 @@ CHECKS['C12'] = dict(
          'generator installed => generation completed and usedSize == tableSize - 5MB/16; not installed => usedSize == tableSize; every return path; updateTB returns true only with a complete table; '
          'TB byte region disjoint from hash entries (lemma); setUsedSize loop contract. Table index (class TBIndex, up to 5 men): bit layout, getSquare/setSquare, the three mirror operations act on every piece except the white king, '
          'setSquare of the white king maps it into the a1-d1-d4 triangle and applies the same symmetry to every other piece, captured pieces follow the black king, static tables symType/kingMap/kingMapInverse, '
-         'sortPieces (multiset of squares per piece type preserved, equal neighbours ascending); thorough: canonize gives diagonal mirror images the same index. PositionValue encoding and probe score conversion.',
+         'sortPieces (multiset of squares per piece type preserved, equal neighbours ascending); thorough: canonize gives diagonal mirror images, and listings of equal pieces in another order, the same index. PositionValue encoding and probe score conversion.',
     note=TRUST + 'TBGenerator::generate/probeDTM are stubs with assumed contracts (generate reports completion through its return value). NOT decided: exactness of the generated distances (retrograde analysis over millions of entries), '
          'move / un-move generation on indices (TBPosition, lambdas) - the core of the property is therefore NOT decided by this check.',
     technique='CBMC function contracts (class invariant) on extracted real code (dfcc), SAT back end',
